@@ -188,6 +188,8 @@ def run_check(pid: str, tier: str, seed: int) -> int:
             break
         time.sleep(0.05)
 
+    if os.environ.get("VERIF_DEBUG"):
+        Path(os.environ["VERIF_DEBUG"]).write_text(json.dumps(records, indent=1, default=str))
     rc = finish(pid, tier, seed, mod, plan, records, worker_counters, worker_sets,
                 harness_notes, watchdog_fired, n_cases, time.time() - t0)
     shutil.rmtree(run_dir, ignore_errors=True)
